@@ -79,6 +79,9 @@ OnlyDisplay(args) == \A k \in 1..Len(args) : Settings[Arg(args[k]).j].k = "displ
 PropId(f) == CASE f = "lr" -> PropSwingLR [] f = "ud" -> PropSwingUD [] f = "rate" -> PropRateSelect [] f = "away" -> PropBreezeAway
                [] f = "mild" -> PropBreezeControl [] f = "less" -> PropBreezeless [] f = "ieco" -> PropIeco
 PropRaw(f, v) == CASE f = "away" -> IF v # 0 THEN 2 ELSE 1 [] f = "mild" -> IF v # 0 THEN 3 ELSE 1 [] OTHER -> v
+(* ... when the client has learned (--capabilities) that the unit has the combined breeze control, every breeze setting goes to that one register *)
+PropIdC(f, ctl) == IF ctl /\ f \in {"away", "mild", "less"} THEN PropBreezeControl ELSE PropId(f)
+PropRawC(f, v, ctl) == IF ctl /\ f = "less" THEN (IF v # 0 THEN 4 ELSE 1) ELSE PropRaw(f, v)
 PropFields == {"lr", "ud", "rate", "away", "mild", "less", "ieco"}
 WantedProps(args) == {f \in PropFields : Given(args, f)}
 =======================================================================
